@@ -128,6 +128,12 @@ struct SHalfHalf // low half from x reversed, high half from y
     static constexpr size_t get(size_t i, size_t n) { return i < n / 2 ? n / 2 - 1 - i : n + i; }
 };
 
+// when the unit runs for C19, the constant-parameter APIs (shuffle mask, slide/rotate count, insert index)
+// are reported under C19: "every API taking a constant returns what its definition gives for the converted values"
+static const char* P05()
+{
+    return (ctx().prop && strcmp(ctx().prop, "C19") == 0) ? "C19" : "C05";
+}
 template <class T>
 static T pat(Rng& r)
 {
@@ -263,7 +269,7 @@ static void cshuf(Rng& rng, const char* gname)
     using IT = xs::as_unsigned_integer_t<T>;
     using M = decltype(xs::make_batch_constant<IT, G, ARCH>());
     constexpr size_t N = B::size;
-    static OpStat& st = reg("C05", "shuffle", tname<T>());
+    static OpStat& st = reg(P05(), "shuffle", tname<T>());
     if (!st.on)
         return;
     // the generic kernel turns pure-x / pure-y masks into a constant swizzle, zip patterns into zip_lo/hi
@@ -326,8 +332,8 @@ static void slides(Rng& rng, std::index_sequence<Is...>)
     using B = xs::batch<T, ARCH>;
     constexpr size_t N = B::size;
     constexpr size_t BY = sizeof(T) * N;
-    static OpStat& sl = reg("C05", "slide_left", tname<T>());
-    static OpStat& sr = reg("C05", "slide_right", tname<T>());
+    static OpStat& sl = reg(P05(), "slide_left", tname<T>());
+    static OpStat& sr = reg(P05(), "slide_right", tname<T>());
     if (!sl.on && !sr.on)
         return;
     alignas(64) T a[N], o[N];
@@ -365,8 +371,8 @@ static void rotate_one(const T* a)
     using B = xs::batch<T, ARCH>;
     using IT = xs::as_unsigned_integer_t<T>;
     constexpr size_t N = B::size;
-    static OpStat& rl = reg("C05", "rotate_left", tname<T>());
-    static OpStat& rr = reg("C05", "rotate_right", tname<T>());
+    static OpStat& rl = reg(P05(), "rotate_left", tname<T>());
+    static OpStat& rr = reg(P05(), "rotate_right", tname<T>());
     using ML = decltype(xs::make_batch_constant<IT, GRot<K>, ARCH>());
     using MR = decltype(xs::make_batch_constant<IT, GRot<(N - K % N) % N>, ARCH>());
     alignas(64) T o[N];
@@ -426,7 +432,7 @@ static void inserts(Rng& rng, std::index_sequence<Is...>)
 {
     using B = xs::batch<T, ARCH>;
     constexpr size_t N = B::size;
-    static OpStat& st = reg("C05", "insert", tname<T>());
+    static OpStat& st = reg(P05(), "insert", tname<T>());
     if (!st.on)
         return;
     alignas(64) T a[N], o[N];
